@@ -231,6 +231,12 @@ impl ControlHandle {
         U: ack::ParseScd<'a>,
     {
         let cmd = cmd.finalize(self.next_req_id);
+        let expected_ack_kind = match cmd.ccd().scd_kind() {
+            cmd::ScdKind::ReadMem => ack::ScdKind::ReadMem,
+            cmd::ScdKind::WriteMem => ack::ScdKind::WriteMem,
+            cmd::ScdKind::ReadMemStacked => ack::ScdKind::ReadMemStacked,
+            cmd::ScdKind::WriteMemStacked => ack::ScdKind::WriteMemStacked,
+        };
         let cmd_len = cmd.cmd_len();
         let ack_len = cmd.maximum_ack_len();
         if self.buffer.len() < std::cmp::max(cmd_len, ack_len) {
@@ -259,6 +265,12 @@ impl ControlHandle {
                 std::thread::sleep(pending_ack.timeout);
                 retry_count -= 1;
                 continue;
+            }
+
+            if ack.scd_kind() != expected_ack_kind {
+                return Err(ControlError::Io(anyhow::Error::msg(
+                    "acknowledge kind doesn't match the command",
+                )));
             }
 
             self.next_req_id = self.next_req_id.wrapping_add(1);
